@@ -504,6 +504,10 @@ func FuzzC15(f *testing.F) {
 	f.Add([]byte(c15Base))
 	f.Add([]byte(configs.DefaultSchedulerConfig))
 	f.Add([]byte("partitions:\n  - name: default\n    queues:\n      - name: root\n        queues:\n          - name: A\n            resources:\n              max: {memory: 1Gi}\n            childtemplate:\n              resources:\n                max: {memory: 2Gi}\n            parent: true\n"))
+	// a document whose only partition has another name, and one with two partitions: loading them into a running
+	// scheduler removes / adds a partition
+	f.Add([]byte("partitions:\n  - name: other\n    queues:\n      - name: root\n        submitacl: \"*\"\n        queues:\n          - name: a\n"))
+	f.Add([]byte("partitions:\n  - name: default\n    queues:\n      - name: root\n        queues:\n          - name: a\n  - name: second\n    queues:\n      - name: root\n        queues:\n          - name: b\n"))
 	f.Fuzz(func(t *testing.T, data []byte) {
 		c := c15Case{YAML: string(data)}
 		if msg, _, _ := runC15(c); msg != "" {
